@@ -65,6 +65,8 @@ def gen_dataset(ctx):
         {"format": "npz", "algs": ["md5"], "width": 70000, "eps": 2, "n": 3},
         {"format": "fb", "algs": list(ALGS), "width": 10, "eps": 2, "n": 5, "compression": "GZIP"},
         {"format": "fb", "algs": ["sha256", "md5", "xxh64"], "width": 64, "eps": 4, "n": 6, "second_session": True, "merged_fillers": 2},
+        {"format": "fb", "algs": ["sha256", "xxh64"], "width": 700000, "eps": 2, "n": 4, "threaded_fillers": 6},
+        {"format": "npz", "algs": ["md5"], "width": 300000, "eps": 3, "n": 3, "threaded_fillers": 3},
     ]
     if not ctx.quick:
         out.append({"format": "tfrec", "algs": ["sha1", "sha1"], "width": 50000, "eps": 3, "n": 4})
